@@ -10,6 +10,7 @@ Oracle     : the real vnaconv_* function named by the manual for the pair, appli
 """
 import os, random, sys, json
 import vlib
+from props import c04n
 from props.vspec import VSpec, ZERO, Z50, Z
 from props import c15
 
@@ -73,9 +74,9 @@ def build_object(rng, slot, t, r, c, nf, perF):
     ports = max(r, c)
     if perF and nf:
         for f in range(nf):
-            do('set_fz0_vector', [f] + [vlib.c2h(complex(rng.choice([50, 75, 30 + 5 * f]), rng.choice([0, 0, 10]))) for _ in range(ports)])
+            do('set_fz0_vector', [f] + [vlib.c2h(z) for z in c04n.z0_vector(rng, ports)])
     elif ports:
-        do('set_z0_vector', [vlib.c2h(complex(rng.choice([50, 75, 100]), rng.choice([0, 0, -15]))) for _ in range(ports)])
+        do('set_z0_vector', [vlib.c2h(z) for z in c04n.z0_vector(rng, ports)])
     if rng.random() < 0.3:
         do('set_fprecision', [rng.randint(1, 9)])
         do('set_filetype', [rng.randint(0, 3)])
